@@ -338,7 +338,11 @@ def mappingSchemaPass (env : Env) (recN : RecN) (ctx : Ctx) (s : NState) (f : Ke
     reference is replaced by its definition, like the same schema written inline (after the repair of F33) -/
 def seqConstraint (env : Env) (c : Val) : Val :=
   match c with
-  | .str name => match env.schemas name with | some d => d | none => c
+  | .str name =>
+    -- a name that is (also) a rules set is left to the child validator, as in validation
+    match env.rulesSets name with
+    | some _ => c
+    | none => match env.schemas name with | some d => d | none => c
   | _ => c
 
 def seqPass (recN : RecN) (ctx : Ctx) (s : NState) (f : Key) (tup : Bool) (rule : String)
